@@ -39,6 +39,7 @@ var c04Snippets = map[string]string{
 
 // second variants for the stateful tags
 var c04Extra = []string{
+	"{% macro cd(n) %}{{ n }}{% if n > 0 %},{{ cd(n - 1) }}{% endif %}{% endmacro %}{{ cd(depth) }}", // runs into the recursion guard when depth is large
 	"{{ obj.Name }}|{{ obj.ID }}",              // the same path over values of different struct types in different executions
 	"{% include \"incfail\" %}",                 // an included template that produces output and then may fail
 	"{% for i in l %}{{ obj.Name }}{% include \"incfail\" %}{% endfor %}",
@@ -75,6 +76,7 @@ type c04Data struct {
 	c   bool
 	bad bool
 	alt bool // which struct type the context entry obj has
+	deep bool // recursion depth beyond the macro guard
 }
 
 type c04T1 struct {
@@ -87,13 +89,14 @@ type c04T2 struct {
 	ID   int
 }
 
-func c04SymData(maxLen int) c04Data {
+func c04SymData(maxLen int, prog string) c04Data {
 	n := verifChoice(maxLen + 1)
 	l := make([]string, n)
 	for i := range l {
 		l[i] = string([]byte{verifByte()&0x0f | 0x40})
 	}
-	return c04Data{l: l, s: string([]byte{verifByte()&0x0f | 0x40}), c: verifBool(), bad: verifBool(), alt: verifBool()}
+	return c04Data{l: l, s: string([]byte{verifByte()&0x0f | 0x40}), c: verifBool(), bad: indexOf(prog, "f(bad)") >= 0 && verifBool() || indexOf(prog, "incfail") >= 0 && verifBool(),
+		alt: indexOf(prog, "obj.") >= 0 && verifBool(), deep: indexOf(prog, "cd(") >= 0 && verifBool()}
 }
 
 func (d c04Data) ctx() Context {
@@ -102,7 +105,11 @@ func (d c04Data) ctx() Context {
 	if d.alt {
 		obj = c04T2{Name: d.s, ID: 7}
 	}
-	return Context{"l": d.l, "s": d.s, "c": d.c, "bad": bad, "lazyname": "inc", "obj": obj,
+	depth := 2
+	if d.deep {
+		depth = 1200
+	}
+	return Context{"l": d.l, "s": d.s, "c": d.c, "bad": bad, "lazyname": "inc", "obj": obj, "depth": depth,
 		"f": func(b bool) (string, error) {
 			if b {
 				return "", errHarness
@@ -159,7 +166,7 @@ func HarnessC04() {
 	verifObserve("trimblocks", tb)
 	verifObserve("lstripblocks", ls)
 	maxLen := verifParam("len", 2)
-	d1, d2 := c04SymData(maxLen), c04SymData(maxLen)
+	d1, d2 := c04SymData(maxLen, prog), c04SymData(maxLen, prog)
 	set, _ := c04Setup(tb, ls)
 	tpl, err := c04Compile(set, prog)
 	verifAssert(err == nil, "program must compile")
@@ -244,7 +251,7 @@ func HarnessC05() {
 		wg.Wait()
 		return
 	}
-	d := c04SymData(verifParam("len", 2))
+	d := c04SymData(verifParam("len", 2), prog)
 	verifEpoch()
 	c04Exec(tpl, d)
 	set.FromCache("inc")
